@@ -68,6 +68,16 @@ DIRECTED = [
     '2,120000,{D};a1 a2 q o0 o0 q a3 a3 q r0 q t q d0 q o0 q r0 r0 q t q',
     # malformed releases
     '2,120000,{D};a1 a2 q o0 o0 q bu bf0 r0 bd0 bd1 q',
+    # caller cancellation: before the task starts, while queued, after its waiter was completed
+    '1,120000,{D};a1 c0 q a1 q o0 q r0 q',
+    '1,120000,{D};a1 q o0 q a1 a1 q c0 r0 q r0 q',
+    '1,120000,{D};a1 q o0 q a1 a1 q r0 c0 q r0 q',
+    '1,120000,{D};a1 q o0 q a1 a1 a1 q c0 c0 r0 q r0 q',
+    '2,120000,{D};a1 a1 q c1 F0 q c0 q',
+    # _maybe_rebalance with a block two under quota and one free slot (pool full over two dbs,
+    # waiters on d1, a slot of d2 freed by prune without a hand-over, Mode C tick)
+    '4,120000,{D};a2 a2 a2 q o0 o0 o0 q a1 q o0 q a1 a1 a1 a1 q r0 q p2 q d0 q t q o0 q',
+    '5,120000,{D};a2 a2 a2 a2 q o0 o0 o0 o0 q a1 q o0 q a1 a1 a1 a1 a1 q r0 r0 q p2 q d0 q t q d0 q t q',
 ]
 
 
@@ -86,6 +96,8 @@ def rand_schedule(rnd, maxlen, drain):
         wts.update({'f': 1.2, 'F': 0.4, 'e': 0.5})
     if malformed:
         wts['b'] = 1.0
+    if rnd.random() < 0.4:
+        wts['c'] = 1.0
     ks = list(wts)
     ws = [wts[k] for k in ks]
     ops = []
@@ -115,16 +127,52 @@ def exhaustive(depth, drain, maxc=2):
         yield f'{maxc},50,{drain};' + ' '.join(ops)
 
 
+def rebalance_family(rnd, drain):
+    """pool full over two databases, k waiters on d1, j slots of d2 freed WITHOUT a hand-over
+    (release to d2's own stack, then prune / GC closes the idle connection), then ticks: Mode C
+    quota vectors that leave d1 two or more under quota while one slot is free"""
+    m = rnd.choice((4, 4, 5, 6))
+    k = rnd.randint(3, 7)
+    j = rnd.randint(1, 2)
+    via_gc = rnd.random() < 0.3
+    ops = ['a2'] * (m - 1) + ['q'] + ['o0'] * (m - 1) + ['q', 'a1', 'q', 'o0', 'q'] + ['a1'] * k + ['q']
+    tail = ['r0'] * j + ['q']
+    if via_gc:
+        tail += ['w30', 't', 't', 't', 'q'] + ['d0'] * j + ['q', 't', 'q']
+    else:
+        tail += ['p2', 'q'] + ['d0'] * (j - 1) + ['q', 'd0', 'q', 't', 'q']
+    tail += rnd.choice((['o0', 'q', 't', 'q'], ['t', 'q'], ['d0', 'q', 't', 'q', 'o0', 'o0', 'q']))
+    extra = ('t', 'q', 'x', 'a1', 'a2', 'r0', 'o0', 'd0', 'w5', 'c0')
+    for _ in range(rnd.randint(0, 3)):
+        tail.insert(rnd.randrange(len(tail) + 1), rnd.choice(extra))
+    return f'{m},{20 if via_gc else 120000},{drain};' + ' '.join(ops + tail)
+
+
+RB_PREFIX = 'a2 a2 a2 q o0 o0 o0 q a1 q o0 q a1 a1 a1 a1 q'
+RB_ALPHABET = ('r0', 'p2', 'd0', 't', 'q', 'a1', 'o0', 'x')
+
+
+def rebalance_exhaustive(depth, drain):
+    """every sequence of `depth` ops after the prefix that fills a 4-connection pool (3 on d2, 1 on d1)
+    and queues 4 waiters on d1"""
+    for ops in itertools.product(RB_ALPHABET, repeat=depth):
+        yield f'4,120000,{drain};{RB_PREFIX} ' + ' '.join(ops)
+
+
 def gen_cases(prop, tier, drain):
     rnd = lib.rng(prop)
     cases = list(corpus(prop))
     cases += [d.replace('{D}', str(drain)) for d in DIRECTED]
     if tier == 'quick':
         cases += list(exhaustive(4, drain))
-        cases += [rand_schedule(rnd, 60, drain) for _ in range(3000)]
+        cases += list(rebalance_exhaustive(3, drain))
+        cases += [rebalance_family(rnd, drain) for _ in range(300)]
+        cases += [rand_schedule(rnd, 60, drain) for _ in range(2600)]
     else:
         cases += list(exhaustive(5, drain))
         cases += list(exhaustive(4, drain, maxc=1))
+        cases += list(rebalance_exhaustive(4, drain))
+        cases += [rebalance_family(rnd, drain) for _ in range(3000)]
         cases += [rand_schedule(rnd, 60, drain) for _ in range(30000)]
         cases += [rand_schedule(rnd, 300, drain) for _ in range(6000)]
     return cases
@@ -310,10 +358,16 @@ def coverage(rep, prop, tier, lines, res, traces, model, mism, n_coq, extra):
     dist = {'ndb': {}, 'modes': {}, 'events': {}, 'max': {}}
     nev = 0
     outs = {}
+    rb_calls = rb_hit = rb_cases = ncancel = 0
     for l, r in zip(lines, res):
         st = r.get('stats')
         if not st:
             continue
+        rb = st.get('rebalance') or {}
+        rb_calls += rb.get('calls', 0)
+        rb_hit += rb.get('two_under_at_max_minus_1', 0)
+        rb_cases += 1 if rb.get('two_under_at_max_minus_1', 0) else 0
+        ncancel += st.get('cancelled', 0)
         if (st['ndb'] >= 2 or st['cap']) and st['waiter']:
             nontriv.add(hashlib.sha1(r['trace'].encode()).hexdigest())
         dist['ndb'][st['ndb']] = dist['ndb'].get(st['ndb'], 0) + 1
@@ -336,10 +390,13 @@ def coverage(rep, prop, tier, lines, res, traces, model, mism, n_coq, extra):
         'events_compared': nev,
         'distinct_nontrivial': len(nontriv),
         'rule': 'schedules of abstract ops (acquire / release / release(discard) / connect ok|fail|3D000 / '
-                'disconnect ok|fail / fire next timer / advance clock / prune / one ready callback / run to '
+                'disconnect ok|fail / fire next timer / advance clock / prune / cancel a pending acquire / one ready callback / run to '
                 'quiescence / malformed releases) over 1-6 databases, capacity 1-4, GC interval 20ms|50ms|120s: '
                 f'directed scenarios, all sequences of {4 if tier == "quick" else 5} ops over a 9-op alphabet '
-                '(2 dbs, capacity 2), seeded random schedules (half fault-free, 15% with malformed releases); '
+                '(2 dbs, capacity 2), all sequences of 3 (quick) / 4 (thorough) ops over an 8-op alphabet after a prefix '
+                'that fills a 4-connection pool over two dbs with 4 queued waiters, a structured family around '
+                '_maybe_rebalance with a block >= 2 under quota and one free slot, seeded random schedules (half '
+                'fault-free, 15% with malformed releases, 40% with cancellations); '
                 'non-trivial = (>= 2 databases or capacity reached at least once) and at least one waiter was '
                 'queued; distinct = distinct concrete event trace (incl. oracle values)',
         'exhaustive': False,
@@ -348,6 +405,10 @@ def coverage(rep, prop, tier, lines, res, traces, model, mism, n_coq, extra):
         'traces_validated_against_impl': len(lines) if model is not None else 0,
         'model_vs_impl_disagreements': len(mism),
         'coq_vm_compute_cross_checked': n_coq,
+        'maybe_rebalance_calls': rb_calls,
+        'maybe_rebalance_calls_with_a_block_2_under_quota_at_max_minus_1': rb_hit,
+        'schedules_reaching_that_configuration': rb_cases,
+        'acquire_tasks_cancelled': ncancel,
         'distributions': {'databases_per_schedule': dict(sorted(dist['ndb'].items())),
                           'max_capacity': dict(sorted(dist['max'].items())),
                           'tick_modes_reached': dist['modes'], 'concrete_events': dist['events'],
@@ -363,7 +424,7 @@ def coverage(rep, prop, tier, lines, res, traces, model, mism, n_coq, extra):
             'modelled, not verified: CPython asyncio Task/Future/gather scheduling (one ready-queue entry per task '
             'step / wakeup / done-callback, FIFO), dict/OrderedDict/deque order semantics, a disconnect call that '
             'raises still closes the connection; float computations are abstracted (oracle), not approximated',
-            'not modelled: Pool.prune_all_connections (HA failover), cancellation of acquire() by its caller, '
+            'not modelled: Pool.prune_all_connections (HA failover), cancellation of a prune task, '
             'logging / snapshots / stats callback, _NaivePool, pool2',
         ],
     })
@@ -423,7 +484,7 @@ def run(tier):
         'asyncio runs ready callbacks FIFO, one Task step per entry (CPython 3.12 Task/Future/gather as observed)',
         'a disconnect callback that raises still leaves the backend connection closed',
         'callers release only connections they hold (malformed releases are rejected by release() and are part of '
-        'the model); callers never cancel a pending acquire()',
+        'the model); callers may cancel a pending acquire() at any time (prune tasks are never cancelled)',
         'Pool.prune_all_connections is never called (HA failover closes lent connections on purpose)',
         'max_capacity >= 0',
     ]
